@@ -119,6 +119,7 @@ fn product_dsl(globals: &[(Decl, Supply)], bare: bool) -> String {
     for i in 0..globals.len() {
         s.push_str(&format!("  attr (n) top{} = g{}\n", i, i));
     }
+    s.push_str("  if (is-null g0) {\n  }\n  for in_list in [g0] {\n    let copy_of_global = in_list\n  }\n");
     s.push_str("  if #true {\n    for x in [1] {\n      let y = [ g0 for e in [1] ]\n      attr (n) nested_list = y\n");
     for i in 0..globals.len() {
         s.push_str(&format!("      attr (n) deep{} = g{}\n", i, i));
